@@ -76,7 +76,8 @@ class _:
     the frame obligations are the clauses of C07 for every BlockMiddleware-based middleware).
 
     Splice protocol (C20): ghost code records, per input block i, the kind of the hook result (hk: 0 None, 1 Block,
-    2 list / tuple), its length (hl) and the position (so) at which its outputs start in the collected list.  The
+    2 list / tuple; hres is the kind read off the result itself, and hk == hres), its length (hl) and the position (so) at
+    which its outputs start in the collected list.  The
     outputs of input 0, 1, 2, ... follow each other without gaps in input order, None contributes nothing, a Block
     exactly itself, a collection exactly len(collection) blocks; the returned library holds exactly the collected
     blocks in that order (a block whose key is already taken comes wrapped, Library(blocks))."""
@@ -86,7 +87,8 @@ class _:
     locals = {"blocks": "list:ref:Block"}
     ghost_code = [
         ("blocks = []", [("tn", None, "0")]),
-        ("transformed = self.transform_block(b, library)", [("so", "ghost('tn')", "len(blocks)")]),
+        ("transformed = self.transform_block(b, library)", [("so", "ghost('tn')", "len(blocks)"),
+                                                            ("hres", "ghost('tn')", "0 if isnone(transformed) else (1 if isinstance(transformed, Block) else 2)")]),
         ("pass", [("hk", "ghost('tn')", "0"), ("tn", None, "ghost('tn') + 1")]),
         ("blocks.append(transformed)", [("hk", "ghost('tn')", "1"), ("hb", "ghost('tn')", "ref_id(blocks[len(blocks) - 1])"), ("tn", None, "ghost('tn') + 1")]),
         ("blocks.extend(transformed)", [("hk", "ghost('tn')", "2"), ("hl", "ghost('tn')", "len(blocks) - ghost('so', ghost('tn'))"), ("tn", None, "ghost('tn') + 1")]),
@@ -96,6 +98,7 @@ class _:
         "input-untouched": "same(library._blocks, old(library._blocks)) and len(library._blocks) == old(len(library._blocks)) and forall(i, 0 <= i < len(library._blocks), same(library._blocks[i], old(library._blocks[i])))",
         "collected-exist": "forall(t, 0 <= t < len(blocks), allocated(blocks[t])) and self._allow_inplace_modification == old(self._allow_inplace_modification)",
         "splice": "forall(i, 0 <= i < ghost('tn'), 0 <= ghost('hk', i) <= 2 and out_count(i) >= 0 and ghost('so', i) + out_count(i) == (ghost('so', i + 1) if i + 1 < ghost('tn') else len(blocks))) and implies(ghost('tn') > 0, ghost('so', 0) == 0) and implies(ghost('tn') == 0, len(blocks) == 0)",
+        "splice-kind": "forall(i, 0 <= i < ghost('tn'), ghost('hk', i) == ghost('hres', i))",
         "splice-block": "forall(i, 0 <= i < ghost('tn'), implies(ghost('hk', i) == 1, 0 <= ghost('so', i) < len(blocks) and ref_id(blocks[ghost('so', i)]) == ghost('hb', i)))",
     }, "props": ("C07", "C20")},
         2: {"cursor": "_j", "invariant": {"items-checked": "0 <= _j and forall(q, 0 <= q < _j, isref(as_ref(transformed, 'list:any')[q]) and isinstance(as_ref(transformed, 'list:any')[q], Block))"},
@@ -103,7 +106,8 @@ class _:
     ensures = {
         "C07.fresh-library": "fresh(result)",
         "C20.splice-order": "ghost('tn') == len(library._blocks) and forall(i, 0 <= i < ghost('tn'), 0 <= ghost('hk', i) <= 2 and out_count(i) >= 0 and ghost('so', i) + out_count(i) == (ghost('so', i + 1) if i + 1 < ghost('tn') else len(result._blocks))) and implies(ghost('tn') > 0, ghost('so', 0) == 0) and implies(ghost('tn') == 0, len(result._blocks) == 0)",
+        "C20.splice-kind": "forall(i, 0 <= i < ghost('tn'), ghost('hk', i) == ghost('hres', i))",
         "C20.splice-block": "forall(i, 0 <= i < ghost('tn'), implies(ghost('hk', i) == 1, 0 <= ghost('so', i) < len(result._blocks) and (ref_id(result._blocks[ghost('so', i)]) == ghost('hb', i) or cls_is(result._blocks[ghost('so', i)], 'DuplicateBlockKeyBlock'))))",
     }
     raises = {"Exception": {"when": None}}
-    modifies = ["ghost:base:int", "ghost:tn:int", "ghost:so:arr", "ghost:hk:arr", "ghost:hl:arr", "ghost:hb:arr"]
+    modifies = ["ghost:base:int", "ghost:tn:int", "ghost:so:arr", "ghost:hk:arr", "ghost:hl:arr", "ghost:hb:arr", "ghost:hres:arr"]
